@@ -158,6 +158,54 @@ def grammar_failures(prop, ops, fired):
     return out
 
 
+_RECORD_OPS = ("log", "check", "url", "attach", "attachEnd")
+
+
+def step_change_failures(prop, ops, fired):
+    """C06, "inside the step that was current in the emitting thread … all step changes", on the fired stream of a
+    protocol-following call sequence: EVERY set_step call opens a new step.  The k-th record call of a thread (log,
+    check, url, attachment) is the k-th record event of that thread; when the thread called set_step(d) since its
+    previous record, the stream holds — between that previous record event of the thread (or the beginning) and this
+    one — a StepStart of the thread with description d, and the record names step d.  A step change to a step with
+    the same description as the current one is a step change like any other."""
+    out = []
+    rec_events = {}          # tid -> indices of its record events in `fired`
+    for i, e in enumerate(fired):
+        if e["e"] in ("log", "check", "url", "att"):
+            rec_events.setdefault(e["tid"], []).append(i)
+    seen = {}                # tid -> number of record calls so far
+    pending = {}             # tid -> description of the latest set_step since the thread's previous record
+    for op in ops:
+        tid, k = op["tid"], op["op"]
+        if k == "setStep":
+            pending[tid] = op["desc"]
+        elif k in _START_OPS or k in _END_OPS or k in ("threadRun", "threadEnd"):
+            pending.pop(tid, None)          # the runner / Thread.run set their own steps around these
+        elif k in _RECORD_OPS:
+            n = seen.get(tid, 0)
+            seen[tid] = n + 1
+            idxs = rec_events.get(tid, [])
+            if n >= len(idxs):
+                break                       # the stream is shorter than the calls: judged by the comparison with the model
+            d = pending.pop(tid, None)
+            if d is None:
+                continue
+            lo = idxs[n - 1] + 1 if n else 0
+            window = fired[lo:idxs[n]]
+            e = fired[idxs[n]]
+            if not any(x["e"] == "stepStart" and x["tid"] == tid and x["desc"] == d for x in window):
+                out.append(C.Failure(prop + "/step-change-lost",
+                                     "thread %s called set_step(%r) and then recorded fired[%d] = %s, but no StepStart(%r) of that "
+                                     "thread was fired since its previous record: the record is filed under an older step"
+                                     % (tid, d, idxs[n], {k2: v for k2, v in e.items() if k2 != "md"}, d)))
+                break
+            if e.get("step") != d:
+                out.append(C.Failure(prop + "/record-names-foreign-step",
+                                     "thread %s called set_step(%r), its next record fired[%d] names step %r" % (tid, d, idxs[n], e.get("step"))))
+                break
+    return out
+
+
 def _att_content(path):
     """what the harness writes into the attachment file it is handed: determined by the (unique) file name"""
     return "content of " + os.path.basename(path)
@@ -197,6 +245,15 @@ def gen_ops(rng, chaos=0.05):
     test_no = [0]
     ops.append({"tid": 1, "op": "startTestSession"})
 
+    last_desc = {}      # tid -> the description of the latest set_step of that thread
+
+    def set_step(tid, desc):
+        """a set_step op; about a third of them set the description the thread set last AGAIN (polling loops)"""
+        if tid in last_desc and rng.random() < 0.35:
+            desc = last_desc[tid]
+        last_desc[tid] = desc
+        return {"tid": tid, "op": "setStep", "desc": desc}
+
     def spawn(tid, depth):
         new = nxt_thread[0]
         nxt_thread[0] += 1
@@ -223,7 +280,7 @@ def gen_ops(rng, chaos=0.05):
         for _ in range(rng.randint(0, 4)):
             r = rng.random()
             if r < 0.3:
-                body.append({"tid": tid, "op": "setStep", "desc": "in%d" % rng.randint(0, 3)})
+                body.append(set_step(tid, "in%d" % rng.randint(0, 3)))
             elif r < 0.78:
                 body.append(simple_op(tid, rng.random()))
             elif r < 0.9 and wdepth < 2:
@@ -231,7 +288,7 @@ def gen_ops(rng, chaos=0.05):
             elif depth < 1:
                 body += spawn(tid, depth)
         if rng.random() < 0.35 and not any(isinstance(o, dict) and o["op"] == "setStep" for o in body):
-            body.insert(rng.randint(0, len(body)), {"tid": tid, "op": "setStep", "desc": "in%d" % rng.randint(0, 3)})
+            body.insert(rng.randint(0, len(body)), set_step(tid, "in%d" % rng.randint(0, 3)))
         # about a quarter of the blocks are left by an exception (`attachAbort`): the body — or `shutil.copy` of
         # `save_attachment_file` on a missing source — raised, mostly BEFORE the file was written (`write: False`)
         abort = rng.random() < 0.25
@@ -247,7 +304,7 @@ def gen_ops(rng, chaos=0.05):
         for _ in range(rng.randint(0, 6)):
             r = rng.random()
             if r < 0.2:
-                out.append({"tid": tid, "op": "setStep", "desc": "step%d" % rng.randint(0, 3)})
+                out.append(set_step(tid, "step%d" % rng.randint(0, 3)))
             elif r < 0.72:
                 out.append(simple_op(tid, rng.random()))
             elif r < 0.84:
@@ -276,7 +333,7 @@ def gen_ops(rng, chaos=0.05):
             p = sp + ["t%d" % test_no[0]]
             out.append({"tid": tid, "op": "startTest", "path": p, "md": md_of(p[-1], test_no[0])})
             if rng.random() < 0.85:
-                out.append({"tid": tid, "op": "setStep", "desc": "Setup test" if rng.random() < 0.4 else "body"})
+                out.append(set_step(tid, "Setup test" if rng.random() < 0.4 else "body"))
             out += body_ops(tid)
             out.append({"tid": tid, "op": "endTest", "path": p})
         elif kind in ("skip", "disable"):
@@ -390,6 +447,14 @@ def _window_corpus():
         {"ops": test(1, "t1", 1, [begin_nowrite(1, "g", "aborted"), abort(1)])[:-1]},
         # leaving a block by an exception that was never entered
         wrap(test(1, "t1", 1, [step(1, "a"), abort(1)])),
+        # a polling loop: set_step with the SAME description again and again, a record after each call — in the test's
+        # thread, in an lcc.Thread (whose default step carries that description too), and with the first of the
+        # repeated steps left empty; then the same around the exit of an attachment block
+        wrap(test(1, "t1", 1, [step(1, "poll"), log(1, "r1"), step(1, "poll"), log(1, "r2"),
+                               {"tid": 1, "op": "threadCreate", "new": 10}, {"tid": 10, "op": "threadRun"}, log(10, "t1"),
+                               step(10, "poll"), log(10, "t2"), {"tid": 10, "op": "threadEnd"},
+                               step(1, "poll"), step(1, "poll"), log(1, "r3"),
+                               begin(1, "f", "d"), step(1, "poll"), end(1)])),
     ]
 
 
@@ -673,6 +738,15 @@ class SessionStream(C.Stream):
         if n_win:
             f.append("attach-window")
             f += sorted("attach-window+" + k for k in inside if k in ("setStep", "nested", "threadCreate", "log", "check", "abort"))
+        last = {}
+        for op in case["ops"]:
+            if op["op"] == "setStep":
+                if last.get(op["tid"]) == op["desc"]:
+                    f.append("setStep-same-description-again")
+                    break
+                last[op["tid"]] = op["desc"]
+            elif op["op"] in _START_OPS or op["op"] in _END_OPS:
+                last.pop(op["tid"], None)
         kinds = {e["e"] for e in obs["fired"]}
         f += sorted("ev=" + k for k in kinds if k in ("stepStart", "sessionSetupStart", "suiteSetupStart", "att", "testSkipped"))
         return f
